@@ -46,6 +46,32 @@ Proof.
   specialize (IH H). destruct (py_find_char "." r); lia.
 Qed.
 
+Lemma py_find_char_neg : forall s, has_dot s = false -> py_find_char "."%char s = (-1)%Z.
+Proof.
+  induction s as [|a r IH]; simpl; [reflexivity|]. unfold dot.
+  destruct (Ascii.eqb a "."); simpl; intros H; [discriminate|]. rewrite (IH H). reflexivity.
+Qed.
+
+(* s.find('.') >= 0 (or > -1, != -1) is  '.' in s *)
+Lemma py_find_ge0 : forall s, (0 <=? py_find_char "."%char s)%Z = has_dot s.
+Proof.
+  intros s. destruct (has_dot s) eqn:D.
+  - apply Z.leb_le, py_find_char_nonneg, D.
+  - rewrite (py_find_char_neg s D). reflexivity.
+Qed.
+Lemma py_find_gtm1 : forall s, ((-1) <? py_find_char "."%char s)%Z = has_dot s.
+Proof.
+  intros s. destruct (has_dot s) eqn:D.
+  - apply Z.ltb_lt. pose proof (py_find_char_nonneg s D). lia.
+  - rewrite (py_find_char_neg s D). reflexivity.
+Qed.
+Lemma py_find_eqm1 : forall s, (py_find_char "."%char s =? (-1))%Z = negb (has_dot s).
+Proof.
+  intros s. destruct (has_dot s) eqn:D.
+  - apply Z.eqb_neq. pose proof (py_find_char_nonneg s D). lia.
+  - rewrite (py_find_char_neg s D). reflexivity.
+Qed.
+
 Lemma py_drop_succ : forall z a r, (0 <= z)%Z -> py_drop (Z.to_nat (z + 1)) (String a r) = py_drop (Z.to_nat z) r.
 Proof. intros z a r H. rewrite Z2Nat.inj_add by lia. rewrite Nat.add_1_r. reflexivity. Qed.
 
@@ -72,18 +98,21 @@ Proof. reflexivity. Qed.
 Lemma py_number_of_num : forall n, py_number (py_of_num n) = Some (num_x n).
 Proof. intros [z|f]; reflexivity. Qed.
 
+(* InputParam.__lt__ : the order add() sorts by (by cases on the comparison, whatever the shape of the text) *)
+Theorem gen_InputParameter___lt___eq : forall a b, gen_InputParameter___lt__ a b = prio_ltb a b.
+Proof.
+  intros a b. unfold gen_InputParameter___lt__, prio_ltb, py_q_lt, py_q_le.
+  repeat match goal with |- context [Qle_bool ?x ?y] => destruct (Qle_bool x y) end; reflexivity.
+Qed.
+
 Lemma py_insert_by_lt : forall x l, py_insert_by gen_InputParameter___lt__ x l = insert_sorted x l.
-Proof. induction l as [|y r IH]; simpl; [reflexivity|]. rewrite IH. reflexivity. Qed.
+Proof. induction l as [|y r IH]; simpl; [reflexivity|]. rewrite IH, gen_InputParameter___lt___eq. reflexivity. Qed.
 
 Lemma py_sorted_by_lt : forall l, py_sorted_by gen_InputParameter___lt__ l = py_sorted l.
 Proof.
   unfold py_sorted_by, py_sorted. induction l as [|y r IH]; simpl; [reflexivity|].
   rewrite IH. apply py_insert_by_lt.
 Qed.
-
-(* InputParam.__lt__ : the order add() sorts by *)
-Theorem gen_InputParameter___lt___eq : forall a b, gen_InputParameter___lt__ a b = prio_ltb a b.
-Proof. reflexivity. Qed.
 
 (* ====================================================================== *)
 (* set_value, class by class                                                *)
@@ -92,56 +121,65 @@ Proof. reflexivity. Qed.
 Definition set_res (c : option exn) (v0 v : pyval) : mres pyval unit :=
   match c with None => MOk v tt | Some e => MExn e v0 end.
 
+(* The proofs below do not follow the shape of the generated text: they split on the object's read-only flag
+   and on the kind of the value, then on every test that is still undecided (comparisons stay abstract), so a
+   rewrite of the method that keeps its meaning -- checks in another order, guard clauses or nested
+   conditionals, helpers, hoisted sub-expressions -- is proved equal to the model by the same script. *)
+Ltac brk_step :=
+  match goal with
+  | |- context [match ?x with _ => _ end] =>
+    lazymatch x with
+    | context [match _ with _ => _ end] => fail
+    | _ => destruct x eqn:?
+    end
+  end.
+Ltac brk := repeat (first [reflexivity | brk_step; cbn]).
+
 Opaque x_leb num_x flt_x.
 Ltac cmp_cases :=
-  unfold py_le, py_lt, py_ge, py_gt, py_cmp, between; rewrite ?py_number_of_num; cbn [py_number val_x];
+  unfold py_le, py_lt, py_ge, py_gt, py_cmp, x_ltb, between; rewrite ?py_number_of_num; cbn [py_number val_x];
   repeat match goal with |- context [x_leb ?a ?b] => destruct (x_leb a b) end; try reflexivity.
+Ltac set_cases :=
+  cbn; unfold py_le, py_lt, py_ge, py_gt, py_cmp, x_ltb, between; rewrite ?py_number_of_num; cbn; brk.
 
 Theorem gen_InputParameter_set_value_eq : forall ro v0 v,
   gen_InputParameter_set_value ro v0 v = if ro then MExn ValueError v0 else MOk v tt.
-Proof. intros [|] v0 v; reflexivity. Qed.
+Proof. intros ro v0 v. unfold gen_InputParameter_set_value. destruct ro; set_cases. Qed.
 
 Theorem gen_InputParameterMap_set_value_eq : forall h ch v,
   gen_InputParameterMap_set_value (Map h ch) v = MExn NotImplementedError (Map h ch).
-Proof. reflexivity. Qed.
+Proof. intros. unfold gen_InputParameterMap_set_value. set_cases. Qed.
 
 Theorem gen_InputParameterInt_set_value_eq : forall ro mn mx v0 v,
   gen_InputParameterInt_set_value ro mn mx v0 v = set_res (check_set repaired ro (CInt mn mx) v) v0 v.
 Proof.
-  intros [|] mn mx v0 v; [reflexivity|].
-  unfold gen_InputParameterInt_set_value, check_set, set_res. destruct v; try reflexivity; cbn; cmp_cases.
+  intros ro mn mx v0 v. unfold gen_InputParameterInt_set_value, check_set, set_res. destruct ro, v; set_cases.
 Qed.
 
 Theorem gen_InputParameterFloat_set_value_eq : forall ro mn mx v0 v,
   gen_InputParameterFloat_set_value ro mn mx v0 v = set_res (check_set repaired ro (CFloat mn mx) v) v0 v.
 Proof.
-  intros [|] mn mx v0 v; [reflexivity|].
-  unfold gen_InputParameterFloat_set_value, check_set, set_res. destruct v; try reflexivity; cbn; cmp_cases.
-  destruct (N.eqb tag 2); reflexivity.
+  intros ro mn mx v0 v. unfold gen_InputParameterFloat_set_value, check_set, set_res. destruct ro, v; set_cases.
 Qed.
 
 Theorem gen_InputParameterStr_set_value_eq : forall ro v0 v,
   gen_InputParameterStr_set_value ro v0 v = set_res (check_set repaired ro CStr v) v0 v.
-Proof. intros [|] v0 v; [reflexivity|]. destruct v; reflexivity. Qed.
+Proof. intros ro v0 v. unfold gen_InputParameterStr_set_value, check_set, set_res. destruct ro, v; set_cases. Qed.
 
 Theorem gen_InputParameterBool_set_value_eq : forall ro v0 v,
   gen_InputParameterBool_set_value ro v0 v = set_res (check_set repaired ro CBool v) v0 v.
-Proof. intros [|] v0 v; [reflexivity|]. destruct v; reflexivity. Qed.
+Proof. intros ro v0 v. unfold gen_InputParameterBool_set_value, check_set, set_res. destruct ro, v; set_cases. Qed.
 
 Theorem gen_InputParameterQuantity_set_value_eq : forall ro cls mn mx v0 v,
   gen_InputParameterQuantity_set_value ro cls mn mx v0 v = set_res (check_set repaired ro (CQty cls mn mx) v) v0 v.
 Proof.
-  intros [|] cls mn mx v0 v; [reflexivity|].
-  unfold gen_InputParameterQuantity_set_value, check_set, set_res. destruct v; try reflexivity; cbn.
-  destruct (N.eqb cls0 cls); cbn; [|reflexivity]. cmp_cases.
+  intros ro cls mn mx v0 v. unfold gen_InputParameterQuantity_set_value, check_set, set_res. destruct ro, v; set_cases.
 Qed.
 
 Theorem gen_InputParameterSelectionList_set_value_eq : forall ro opts v0 v,
   gen_InputParameterSelectionList_set_value ro opts v0 v = set_res (check_set repaired ro (CSel opts) v) v0 v.
 Proof.
-  intros [|] opts v0 v; [reflexivity|].
-  unfold gen_InputParameterSelectionList_set_value, check_set, set_res. destruct v; try reflexivity; cbn.
-  destruct (mem_str s opts); reflexivity.
+  intros ro opts v0 v. unfold gen_InputParameterSelectionList_set_value, check_set, set_res. destruct ro, v; set_cases.
 Qed.
 
 Transparent x_leb num_x flt_x.
@@ -193,7 +231,7 @@ Theorem gen_InputParameterMap_get_eq : forall fuel m key,
   gen_InputParameterMap_get fuel m key = get_lit fuel m key.
 Proof.
   induction fuel as [|f IH]; intros m key; [reflexivity|].
-  cbn [gen_InputParameterMap_get get_lit]. cbv zeta. rewrite py_contains_char_dot.
+  cbn [gen_InputParameterMap_get get_lit]. cbv zeta. rewrite ?py_contains_char_dot, ?py_find_ge0, ?py_find_gtm1, ?py_find_eqm1.
   destruct m as [h ro c d v | h ch]; cbn [py_children].
   - destruct (has_dot key); [rewrite py_list_get_parts0|]; reflexivity.
   - destruct (has_dot key) eqn:D.
@@ -212,7 +250,7 @@ Theorem gen_InputParameterMap_get__upd_eq : forall g f, (forall x, f x = mlift g
   forall fuel m key, gen_InputParameterMap_get__upd fuel f m key = mres_of m (modify_lit fuel g m key).
 Proof.
   intros g f Hf. induction fuel as [|fu IH]; intros m key; [reflexivity|].
-  cbn [gen_InputParameterMap_get__upd modify_lit]. cbv zeta. rewrite py_contains_char_dot.
+  cbn [gen_InputParameterMap_get__upd modify_lit]. cbv zeta. rewrite ?py_contains_char_dot, ?py_find_ge0, ?py_find_gtm1, ?py_find_eqm1.
   destruct m as [h ro c d v | h ch]; cbn [py_children].
   - destruct (has_dot key); [rewrite py_list_get_parts0|]; reflexivity.
   - destruct (has_dot key) eqn:D.
@@ -234,7 +272,7 @@ Theorem gen_InputParameterMap_remove_eq : forall fuel m key,
   gen_InputParameterMap_remove fuel m key = rm_of m (remove_lit fuel m key).
 Proof.
   induction fuel as [|fu IH]; intros m key; [reflexivity|].
-  cbn [gen_InputParameterMap_remove remove_lit]. cbv zeta. rewrite py_contains_char_dot.
+  cbn [gen_InputParameterMap_remove remove_lit]. cbv zeta. rewrite ?py_contains_char_dot, ?py_find_ge0, ?py_find_gtm1, ?py_find_eqm1.
   destruct m as [h ro c d v | h ch]; cbn [py_children].
   - destruct (has_dot key); [rewrite py_list_get_parts0|]; reflexivity.
   - destruct (has_dot key) eqn:D.
@@ -314,12 +352,28 @@ Proof.
   rewrite gen_dispatch_value_eq. destruct p; reflexivity.
 Qed.
 
+(* a lookup that fails makes the change through the reference fail the same way (so looking the object up
+   first -- a reference kept in a local -- and changing it afterwards is the one-step form) *)
+Lemma modify_lit_get_raise : forall fuel g m key e,
+  get_lit fuel m key = Raise e -> modify_lit fuel g m key = Raise e.
+Proof.
+  induction fuel as [|fu IH]; intros g m key e H; [exact H|].
+  cbn [get_lit modify_lit] in *. destruct m as [h ro c d v | h ch]; [exact H|].
+  destruct (has_dot key).
+  - destruct (find_child (before_dot key) ch) as [[h' ro' c' d' v' | h' ch']|]; try exact H.
+    rewrite (IH g _ _ _ H). reflexivity.
+  - destruct (find_child key ch); [discriminate | exact H].
+Qed.
+
 Theorem gen_DSOLModel_set_parameter_eq : forall root key v,
   gen_DSOLModel_set_parameter root key v = mres_of root (py_modify (set_value repaired v) root key).
 Proof.
   intros. unfold gen_DSOLModel_set_parameter, py_modify, fuel_of, fuel_for.
+  rewrite ?gen_InputParameterMap_get_eq.
   rewrite (gen_InputParameterMap_get__upd_eq (set_value repaired v))
     by (intro x; apply gen_dispatch_set_value_eq).
+  destruct (get_lit (S (String.length key)) root key) as [p|e] eqn:G;
+    [| try rewrite (modify_lit_get_raise _ (set_value repaired v) _ _ _ G); reflexivity].
   destruct (modify_lit (S (String.length key)) (set_value repaired v) root key); reflexivity.
 Qed.
 
@@ -436,21 +490,19 @@ Theorem gen_InputParameter___init___eq : forall kls id s d ra par,
   | None => base_result kls id s d (boolarg_b ra) par
   end.
 Proof.
+  (* every test the constructor makes is split on first, so the order and grouping of the checks in the
+     source do not matter to the script *)
   intros kls id [key prio ro kind dflt [fk fn fp fr fmi fma ff fo]] d ra par.
   unfold gen_InputParameter___init__, base_checks_ra, key_arg, name_arg, prio_arg, base_result, base_obj.
   cbn [s_flaws s_key s_prio f_key f_name f_prio].
-  destruct fk; cbn [keyarg_is_str keyarg_str]; [reflexivity|].
-  rewrite string_len0, py_contains_char_dot.
-  destruct (String.eqb key EmptyString); [reflexivity|].
-  destruct (has_dot key); [reflexivity|].
-  destruct (N.eqb fn 1); cbn [namearg_is_str namearg_len]; [reflexivity|].
-  destruct (N.eqb fn 2); cbn [namearg_is_str namearg_len Z.eqb]; [reflexivity|].
-  destruct fp; cbn [prioarg_is_num prioarg_q]; [reflexivity|].
-  destruct par as [[hh rr cc dd vv | hh ch]|]; cbn [py_is_map]; [reflexivity | |].
-  - destruct ra as [b|]; cbn [boolarg_is_bool boolarg_b]; [|reflexivity].
-    rewrite gen_InputParameterMap_add_eq.
-    destruct (map_add _ (Map hh ch)); reflexivity.
-  - destruct ra as [b|]; reflexivity.
+  rewrite ?string_len0, ?py_contains_char_dot.
+  destruct fk; cbn [keyarg_is_str keyarg_str]; rewrite ?string_len0, ?py_contains_char_dot;
+  destruct (String.eqb key EmptyString), (has_dot key), (N.eqb fn 1), (N.eqb fn 2), fp,
+           par as [[hh rr cc dd vv | hh ch]|], ra as [b|];
+    cbn [namearg_is_str namearg_len prioarg_is_num prioarg_q py_is_map boolarg_is_bool boolarg_b Z.eqb negb andb orb];
+    try reflexivity;
+    rewrite ?gen_InputParameterMap_add_eq;
+    try (destruct (map_add _ (Map hh ch)); reflexivity).
 Qed.
 
 (* what a constructor call does according to the model: all checks (subclass
